@@ -239,6 +239,9 @@ def gen_world(lib: Lib, rng: random.Random, knobs: dict | None = None) -> World:
     if k["symlinks"]:
         w.vfs.mkdir("/opt/shared")
         w.vfs.symlink("/proj/ext", "/opt/shared")  # directory alias
+        # an alias whose depth differs from its target's: `..` behind it must be resolved physically, not textually
+        w.vfs.mkdir("/opt/shared/deep/er")
+        w.vfs.symlink("/proj/er", "/opt/shared/deep/er")
     file_macros: dict[int, list[str]] = {i: [] for i in range(nfiles)}
     for nm, i in fidx.items():
         file_macros[i].append(nm)
@@ -264,7 +267,9 @@ def gen_world(lib: Lib, rng: random.Random, knobs: dict | None = None) -> World:
                 if tgt.startswith(lp + "/"):
                     styles += ["lookup", "lookup"]
                     break
-            if k["symlinks"] and tgt.startswith("/opt/shared/"):
+            if k["symlinks"] and tgt.startswith("/opt/shared/deep/er/"):
+                styles += ["abs_alias_deep", "abs_alias_deep"]
+            elif k["symlinks"] and tgt.startswith("/opt/shared/"):
                 styles.append("abs_alias")
             st = rng.choice(styles)
             if st == "rel":
@@ -273,6 +278,8 @@ def gen_world(lib: Lib, rng: random.Random, knobs: dict | None = None) -> World:
                 text = tgt
             elif st == "abs_alias":
                 text = "/proj/ext/" + tgt[len("/opt/shared/"):]
+            elif st == "abs_alias_deep":
+                text = "/proj/er/" + tgt[len("/opt/shared/deep/er/"):]
             else:
                 lp = next(lp for lp in w.lookup if tgt.startswith(lp + "/"))
                 text = tgt[len(lp) + 1:]
